@@ -230,3 +230,99 @@ def A_metric_ids(qual, params, consts_spec, prefix):
       out.append(f'Definition {prefix}{k.value}_class : list Z := [{"; ".join(str(b) for b in cls.encode())}]. (* {cls} *)')
     return '\n'.join(out)
   return emit
+
+
+def A_train_loss(qual, coqname, pad_name='pad'):
+  """Per-example training loss of a packaged language model:
+       targets = batch['y']
+       per_token_loss = metrics.unreduced_cross_entropy_loss(targets, preds)
+       per_token_loss *= targets != pad            (or: mask = targets != pad; per_token_loss *= mask)
+       <row-wise tail>
+  The tail may only use reductions over the LAST axis (jnp.sum / jnp.mean with axis=-1),
+  multiplication / division by float literals or the enclosing function's
+  `expected_length`, and `if expected_length is not None`.  Anything else -- in
+  particular a reduction without axis=-1, i.e. across the rows of the batch -- is
+  refused.  Emits `coqname (expected_length : option Q) (masked : list Q) : Q`, a
+  function of ONE row's masked per-token losses."""
+  def emit(tree):
+    T = _T()
+    fd = T.find_def(T.find_def(tree, qual), 'train_loss')
+    if [a.arg for a in fd.args.args] != ['batch', 'preds']:
+      _unsupported(f'{qual}.train_loss: parameters changed')
+    b = _body(fd)
+    if len(b) < 4:
+      _unsupported(f'{qual}.train_loss: too short')
+    s = b[0]
+    ok = isinstance(s, ast.Assign) and D(s.targets[0]) == 'targets' and isinstance(s.value, ast.Subscript) and \
+        D(s.value.value) == 'batch' and isinstance(s.value.slice, ast.Constant) and s.value.slice.value == 'y'
+    if not ok:
+      _unsupported(f"{qual}.train_loss: first statement is not targets = batch['y']")
+    s = b[1]
+    ok = isinstance(s, ast.Assign) and D(s.targets[0]) == 'per_token_loss' and isinstance(s.value, ast.Call) and \
+        D(s.value.func) == 'metrics.unreduced_cross_entropy_loss' and [D(a) for a in s.value.args] == ['targets', 'preds'] \
+        and not s.value.keywords
+    if not ok:
+      _unsupported(f'{qual}.train_loss: per_token_loss is not unreduced_cross_entropy_loss(targets, preds)')
+    s = b[2]
+
+    def is_mask(e):
+      return isinstance(e, ast.Compare) and D(e.left) == 'targets' and len(e.ops) == 1 and \
+          isinstance(e.ops[0], ast.NotEq) and D(e.comparators[0]) == pad_name
+    ok = isinstance(s, ast.AugAssign) and isinstance(s.op, ast.Mult) and D(s.target) == 'per_token_loss' and is_mask(s.value)
+    if not ok:
+      _unsupported(f'{qual}.train_loss: third statement is not `per_token_loss *= targets != {pad_name}`')
+
+    def const(e):
+      if isinstance(e, ast.Constant) and isinstance(e.value, (int, float)) and not isinstance(e.value, bool):
+        from fractions import Fraction
+        fr = Fraction(e.value)
+        return f'({fr.numerator} # {fr.denominator})'
+      if isinstance(e, ast.Name) and e.id == 'expected_length':
+        return 'el'
+      if isinstance(e, ast.BinOp) and isinstance(e.op, (ast.Div, ast.Mult)):
+        return f'({const(e.left)} {"/" if isinstance(e.op, ast.Div) else "*"} {const(e.right)})'
+      return None
+
+    def row(e, env):
+      """expression yielding one number per row"""
+      if isinstance(e, ast.Name) and e.id in env:
+        return env[e.id]
+      if isinstance(e, ast.Call) and D(e.func) in ('jnp.sum', 'jnp.mean') and len(e.args) == 1:
+        kw = {k.arg: k.value for k in e.keywords}
+        ax = kw.get('axis')
+        if set(kw) != {'axis'} or not (isinstance(ax, ast.UnaryOp) and isinstance(ax.op, ast.USub) and
+                                       isinstance(ax.operand, ast.Constant) and ax.operand.value == 1):
+          _unsupported(f'{qual}.train_loss: reduction that is not over axis=-1 only')
+        if D(e.args[0]) != 'per_token_loss':
+          _unsupported(f'{qual}.train_loss: reduction of something other than the masked per-token loss')
+        return f'({"Qsum" if D(e.func) == "jnp.sum" else "Qmean"} masked)'
+      if isinstance(e, ast.BinOp) and isinstance(e.op, (ast.Mult, ast.Div)):
+        c = const(e.right)
+        if c is not None:
+          return f'({row(e.left, env)} {"*" if isinstance(e.op, ast.Mult) else "/"} {c})'
+        c = const(e.left)
+        if c is not None and isinstance(e.op, ast.Mult):
+          return f'({c} * {row(e.right, env)})'
+      _unsupported(f'{qual}.train_loss: expression outside the row-wise subset: ' + ast.dump(e)[:160])
+
+    def block(stmts, env, has_el):
+      if not stmts:
+        _unsupported(f'{qual}.train_loss: falls off the end')
+      s, rest = stmts[0], stmts[1:]
+      if isinstance(s, ast.Return):
+        return row(s.value, env)
+      if isinstance(s, ast.Assign) and len(s.targets) == 1 and isinstance(s.targets[0], ast.Name) and \
+          s.targets[0].id not in ('per_token_loss', 'targets'):
+        v = row(s.value, env)
+        return f'let {s.targets[0].id} := {v} in {block(rest, dict(env, **{s.targets[0].id: s.targets[0].id}), has_el)}'
+      if isinstance(s, ast.If) and isinstance(s.test, ast.Compare) and D(s.test.left) == 'expected_length' and \
+          len(s.test.ops) == 1 and isinstance(s.test.ops[0], ast.IsNot) and isinstance(s.test.comparators[0], ast.Constant) \
+          and s.test.comparators[0].value is None and not has_el:
+        a = block(s.body + rest, env, True)
+        bb = block(s.orelse + rest, env, False)
+        return f'match expected_length with Some el => {a} | None => {bb} end'
+      _unsupported(f'{qual}.train_loss: statement outside the row-wise subset: ' + ast.dump(s)[:160])
+
+    body = block(b[3:], {}, False)
+    return (f'Definition {coqname} (expected_length : option Q) (masked : list Q) : Q :=\n  {body}.')
+  return emit
